@@ -23,6 +23,11 @@ func RunC15(c *Ctx, r *Report) {
 		return
 	}
 	c.macTotality(r, prefix)
+	// the receiver recomputes the code over a re-serialisation of the decoded packet: whatever the decoder
+	// keeps must be emitted again, token by token and padded to the declared length
+	c.akaRules(r, prefix, "stability")
+	c.akaPaddingRule(r, prefix)
+	c.akaEmitsAllRule(r, prefix+"aka.emits-every-attribute")
 	r.Func(c.FuncName(fn))
 	r.Func(c.FuncName(initMAC))
 	f := c.NewFA(fn)
